@@ -482,6 +482,7 @@ def check(C: Ctx, claim, timeout_ms=60000, extra=(), inputs=None, with_uf=True, 
         C.queries += 1
         if r2 == "unsat":
             r = "unsat"
+            s = s2  # the full set decided it
         elif r2 == "sat":
             s = s2
     dt = time.time() - t
@@ -520,6 +521,11 @@ def second_opinion(cons, neg_claim, timeout_s=60, assertions=None):
     else:
         txt = to_smt2(cons, neg_claim)
     txt = txt.replace("(check-sat)", "(check-sat-using qfnra-nlsat)")
+    if os.environ.get("VERIF_DUMP_SECOND"):
+        import hashlib as _h
+
+        with open(os.path.join(os.environ["VERIF_DUMP_SECOND"], _h.sha1(txt.encode()).hexdigest()[:12] + ".smt2"), "w") as _f:
+            _f.write(txt)
     try:
         p = subprocess.run(["/usr/bin/z3", "-in", f"-T:{int(timeout_s)}"], input=txt, capture_output=True, text=True, timeout=timeout_s + 10)
     except subprocess.TimeoutExpired:
